@@ -19,7 +19,13 @@ MANIFEST = dict(
           "the per-allocation oracle constraint only, findNode walks and the COW delete copy as loops. Props/C04Ring.lean: the "
           "LinkedList at pointer level (heap of nodes with nil-able prev/next, sentinel ring, splice/unlink, length counter) never "
           "dereferences nil, keeps the ring invariant and computes exactly the value-level LinkedList.step after every history "
-          "from NewLinkedList (c04_ring_step_refines, c04_ring_run_refines). The model is an acceptor for traces of the real lists (incl. ConcurrentList wrapper) on every run."),
+          "from NewLinkedList (c04_ring_step_refines, c04_ring_run_refines). Props/C04LL.lean: the same for the REGENERATED linked list - "
+          "harness/minigoll translates list/linked_list.go on every run into a deep embedding (Ekit/Generated/LinkedListGo.lean) whose interpreter "
+          "(Ekit/MiniGo/LangLL.lean) is proved to simulate the Ring model call by call (step_sim, new_sim), so that from NewLinkedList(), after every "
+          "history of Get/Append/Add/Set/Delete/Len and with enough fuel, the translated program never dereferences nil, returns what the abstract "
+          "sequence returns and holds its contents (c04_ll_run_refines); the translated program is run against the real LinkedList on every trace "
+          "(area llptr). The model is an acceptor for traces of the real lists (incl. ConcurrentList wrapper) on every run."),
     note=COMMON_NOTE + " Slice growth capacity is an oracle constrained only by cap>=len; AsSlice freshness is probed dynamically (aliasing is not in the value-level model).",
-    technique="Lean 4 refinement proof (model refines abstract sequence, induction over histories) + trace-acceptance correspondence against the real lists",
+    technique="Lean 4 refinement proof (model refines abstract sequence, induction over histories; for the linked list also a simulation proof about "
+              "the Go source translated to a deep embedding on every run) + trace-acceptance correspondence against the real lists",
 )
